@@ -58,8 +58,8 @@ def ob_constants(run, oid):
             a0, a1, a2 = (b.operand_term(x) for x in c.args)
             det = {"args": [mir.show(a0), mir.show(a1), mir.show(a2)]}
             ok = (a0[0] in ("cref", "const") and (a0[1] if a0[0] == "cref" else (a0[3] if len(a0) > 3 else "")).endswith("::" + cname)
-                  and K.mentions_name(a1, "stake") and not K.mentions_call(a1, "total_stake")
-                  and (K.mentions_call(a2, "total_stake") or K.mentions_field(a2, "total_stake")) and not K.mentions_name(a2, "stake"))
+                  and K.mentions_arg(b, a1, 2) and not K.mentions_call(a1, "total_stake")
+                  and (K.mentions_call(a2, "total_stake") or K.mentions_field(a2, "total_stake")) and not K.mentions_arg(b, a2, 2))
         o.check(bool(ok), "EpochInfo::%s|is_met" % fn, "%s(stake) = %s.is_met(stake, total_stake)" % (fn, cname), b.span, det)
     # total_stake is the sum over all validators, written only by the constructor
     w = K.all_field_writers(prog, A + "consensus::epoch_info::EpochInfo").get("total_stake", {})
